@@ -44,6 +44,17 @@ CLAIMED = {
         '(d) Plume::properties: bracket selection, linear interpolation of centre/axis/eccentricity, shorter-arc rotation, head half-ellipsoid, closed membership, and the ellipse formula, over the reals with libm uninterpreted.',
    note=TB + 'lattice bounds and vertex counts as listed per obligation; polygons with more than 4 vertices only through the on-edge lemma; rounding at non-representable boundaries is outside.',
    technique='symbolic execution of clang LLVM IR + z3 (QF_NRA on integer lattices, FP for guards), oracle = textbook definition executed symbolically alongside', design='4/C04'),
+ 'C05': dict(
+   text='Each listed model object is built by its real constructor and real parse_entries() (fed by a stub of the JSON layer delivering arbitrary schema-typed values, so parse-time sentinel handling is included) and its query method is executed symbolically; '
+        'the result is proved equal to the documented closed form over the reals (libm as uninterpreted functions shared by code and oracle) for all parameter values, all four operations, inside and outside the model\'s own range, constant and variable depth surfaces: '
+        'uniform/linear/adiabatic/Chapman temperature, half-space, plate and constant-age plate cooling (100 terms, term by term), uniform composition, uniform raw velocity, uniform grains for the area-feature families; ridge distance / spreading velocity selection.',
+   note=TB + 'exact-real reading (rounding outside the claim); the model table in obligations/C05.py lists what is covered - models not listed there (slab/fault/plume families are being added) are not covered; ridge function: one ridge, 1 segment quick / 2 thorough.',
+   technique='symbolic execution of clang LLVM IR + z3 (QF_NRA + uninterpreted libm with contract axioms), stubbed JSON layer', design='4/C05'),
+ 'C20': dict(
+   text='For the half-space cooling model and the linear models of the three area-feature families the solver proves, over the reals with erfc/sqrt/exp uninterpreted under sign, range and monotonicity axioms: '
+        'top <= T <= bottom for ordered end members under replace, T rises with depth and falls with age (two-copy query on one model object), and the prescribed temperatures are attained at the model\'s own top (and bottom, linear).',
+   note=TB + 'plate-model Fourier sums and the mass-conserving / slab plate-model envelopes are NOT covered (they need real analysis beyond contract axioms, DESIGN.md section 4 C20); rounding outside the claim.',
+   technique='symbolic execution of clang LLVM IR + z3 (QF_NRA + uninterpreted erfc/sqrt/exp with monotonicity instances)', design='4/C20'),
 }
 NA_DEFAULT = 'check not built yet (work in progress; see DESIGN.md section 4 for the planned obligations)'
 NA = {
